@@ -76,6 +76,17 @@ pub fn run(tape: &[u8], ctx: &mut Ctx) {
 		if rf.meta("avro.schema") != Some(h.case.crate_schema.json().as_bytes()) {
 			ctx.violation("C06/header-schema-differs", format!("avro.schema = {:?} but schema.json() = {:?}", rf.meta("avro.schema").map(String::from_utf8_lossy), h.case.crate_schema.json()));
 		}
+		// ... and that text must denote the schema the values were written with (read with the
+		// harness's own schema reader: an independent tool decodes the blocks with what the header says)
+		match rf.meta("avro.schema").and_then(|b| std::str::from_utf8(b).ok()).map(parse_json_schema) {
+			Some(Ok(m)) => {
+				if normalize_first_occurrence(&m) != normalize_first_occurrence(&h.case.schema) {
+					ctx.violation("C06/header-schema-denotes-another-schema", format!("values written under {} but the header's avro.schema is {}", h.case.json, spell_plain(&m)));
+				}
+			}
+			Some(Err(e)) => ctx.violation("C06/header-schema-invalid", format!("avro.schema of a file written under {}: {e}", h.case.json)),
+			None => ctx.violation("C06/header-schema-missing", outline.clone()),
+		}
 		match rf.meta("avro.codec") {
 			Some(c) if c == h.codec.name().as_bytes() => {}
 			None if h.codec == Codec::Null => {}
